@@ -30,7 +30,12 @@ def confirm(mod, v: core.Violation) -> bool:
     a = mod.replay(json.loads(json.dumps(core.jsonable(v.replay))))
     b = mod.replay(json.loads(json.dumps(core.jsonable(v.replay))))
     if core.jsonable(a) != core.jsonable(b):
-        raise core.HarnessError(f"nondeterministic replay for {v.key}: {a!r} vs {b!r}")
+        if a.get("violated") and b.get("violated"):
+            # the details differ between two replays (the code under test depends on something outside the
+            # controlled choices, e.g. the iteration order of a set of objects) but it violates both times
+            print(f"  note: replays of {v.key} differ in detail; both violate the property")
+            return True
+        raise core.HarnessError(f"nondeterministic replay for {v.key}: {str(a)[:600]} vs {str(b)[:600]}")
     return bool(a.get("violated"))
 
 
